@@ -826,7 +826,7 @@ theorem saveStreams_same (ee : Bool) : ∀ (l : List Stream) (s s' : State), sav
       refine Same.trans ?_ (ih _ _ (by rw [he']; exact h))
       exact ⟨rfl, rfl, rfl, rfl⟩
 
-theorem activateDue_same (e : Nat) : ∀ (l : List Stream) (s s' : State), activateDue e l s = .ok s' → Same s s' := by
+theorem activateDue_same : ∀ (l : List Stream) (s s' : State), activateDue l s = .ok s' → Same s s' := by
   intro l
   induction l with
   | nil => intro s s' h; simp only [activateDue, Except.ok.injEq] at h; subst h; exact Same.refl _
@@ -932,23 +932,25 @@ theorem strDistribute_spec (s : State) (es : List Nat) (streams : List Stream) (
 theorem streamerAfterEpochEnd_spec (s : State) (e : Nat) (s' : State) (hg : GInv s)
     (h : streamerAfterEpochEnd s e = .ok s') : GInv s' ∧ Pay s s' := by
   unfold streamerAfterEpochEnd at h
-  cases hd : strDistribute s [e] (activeStreamsFor s e) maxU64 true with
-  | error x => simp [hd] at h
-  | ok s1 =>
-    simp only [hd, Except.ok.injEq] at h
-    subst h
-    obtain ⟨a, b⟩ := strDistribute_spec _ _ _ _ _ _ hg hd
-    have hs : Same s1 { s1 with ptrs := s1.ptrs.set e Pointer.first } := ⟨rfl, rfl, rfl, rfl⟩
-    exact ⟨hs.ginv a, Pay.trans b hs.pay⟩
+  split at h
+  · simp only [Except.ok.injEq] at h; subst h; exact ⟨hg, Pay.refl _⟩
+  · cases hd : strDistribute s [e] (activeStreamsFor s e) maxU64 true with
+    | error x => simp [hd] at h
+    | ok s1 =>
+      simp only [hd, Except.ok.injEq] at h
+      subst h
+      obtain ⟨a, b⟩ := strDistribute_spec _ _ _ _ _ _ hg hd
+      have hs : Same s1 { s1 with ptrs := s1.ptrs.set e Pointer.first } := ⟨rfl, rfl, rfl, rfl⟩
+      exact ⟨hs.ginv a, Pay.trans b hs.pay⟩
 
 theorem streamerBeforeEpochStart_same (s : State) (e : Nat) (s' : State)
     (h : streamerBeforeEpochStart s e = .ok s') : Same s s' := by
   unfold streamerBeforeEpochStart at h
-  cases ha : activateDue e (upcomingStreams s) s with
+  cases ha : activateDue (upcomingStreams s) s with
   | error x => simp [ha] at h
   | ok s1 =>
     simp only [ha] at h
-    exact Same.trans (activateDue_same e _ _ _ ha) (startStreams_same _ _ _ h)
+    exact Same.trans (activateDue_same _ _ _ ha) (startStreams_same _ _ _ h)
 
 theorem idsOK_nodup (gs : List Gauge) (h : IdsOK gs) : (gs.map (·.id)).Nodup := by
   have : gs.map (·.id) = List.range' 1 gs.length := by
